@@ -649,8 +649,19 @@ def main(argv):
     nontriv = lambda h, obs: any(o.startswith("out=") and not o.startswith("out=<EMPTY> ") for o in obs)
     ck.correspond(hb, db, hs, label="units", env=env, nontrivial=nontriv, timeout=1500,
                   ubsan_is_violation=r"preprocessor\.cpp|macro\.cpp|primitive\.cpp|expr/")
-    if known:
-        ck.correspond(hb, db, known, label="known", env=env, nontrivial=nontriv, timeout=600)
+    if known and hb and db:
+        # the canonical replays of the recorded findings are already minimal: run them once, without shrinking
+        impl, ora, notes = ck.run_impl(hb, known, timeout=900, env=env)
+        model = ck.run_model(db, known, timeout=900)
+        ck.notes += notes[:3]
+        ck.cov["evaluations"] += len(known)
+        ck.cov["counters"]["known_replays"] = len(known)
+        still = 0
+        for h, im, mo, om in zip(known, impl, model, ora):
+            if im != mo or om:
+                still += 1
+                ck.report_failure("known", h, im, mo, om)
+        ck.cov["counters"]["known_replays_still_failing"] = still
     # third leg: the REFERENCE semantics of the theorems (keepRef / evalRef / expandRef) against the real cpp
     if db and not ck.replay:
         idx = sorted(refs)[: (400 if ck.tier == "quick" else 8000)]
